@@ -514,6 +514,10 @@ func parentMain(h *Harness) int {
 		_ = os.WriteFile(path, data, 0o644)
 		fmt.Printf("VIOLATION property=%s replay=%s\n  key=%s\n  %s\n", h.Prop, path, v.Key, strings.ReplaceAll(v.Desc, "\n", "\n  "))
 	}
+	if len(m.Samples) == 0 {
+		fmt.Printf("ENGINE-ERROR property=%s\nthe harness recorded no sample case (c.Sample): the evidence file would be invalid\n", h.Prop)
+		return 2
+	}
 	cov := h.Evidence(m)
 	cov["exhaustive"] = m.Exhaustive
 	if len(m.Samples) > 0 {
